@@ -4,6 +4,7 @@ CONSTANTS
   MaxGap = 2
   KeyCps <- KeysAB
   Yaml = FALSE
+  ImplMutant = "none"
   AllowDup = FALSE
-INVARIANTS InvLayout InvUnique InvInnermost InvPath InvReach
+INVARIANTS InvLayout InvUnique InvInnermost InvPath InvReach InvImpl
 CHECK_DEADLOCK FALSE
